@@ -140,7 +140,7 @@ def root_zone_water(
     if rootdepth > Soil_zTop:
         # Determine compartments covered by the top soil
         ztopdepth = round(Soil_zTop, 2)
-        comp_sto = np.sum(prof.dzsum <= ztopdepth)
+        comp_sto = np.argwhere(prof.dzsum >= ztopdepth).flatten()[0] + 1
         # Initialise counters
         WrAct_Zt = 0
         WrFC_Zt = 0
